@@ -5,6 +5,9 @@ Line-protocol front end of the C17 model.
 
   `rt <nodes> <table>`  →  `ok <wf: WF p ∧ WF (p.mapStr sanitize)> <named> <utf8> <json> <reload> <nodes'> <table'> <viewEq> <stable> <spec>`
 
+  `sess <ops> (<nodes> <table>)*`  →  `ok <guards> <ncodes nblobs> <result>*`   (a history of calls, see "sessions" below)
+  `sanitize <hex>`  →  `<hex of sanitize> <validStr>`
+
 `<nodes>`/`<table>` are space-separated token streams (strings in hex, `-` = empty):
   nodes := N count node*
   node  := id name isNamed parent(-1|pos) functionID tableID source  ninstr instr*  nconst const*  nnames name*
@@ -264,6 +267,37 @@ def errName : Err → String
   | .parentNotFound _ => "parent-not-found"
   | .functionNotFound _ => "function-not-found"
 
+/-! ### sessions: `sess <ops> (<nodes> <table>)*` → `ok <guards> <ncodes nblobs> <result>*`
+
+`<ops>` is a space-separated list of `m<i>` (MarshalCode of code object `i` of the store) and
+`u<j>` (UnmarshalCode of retained byte string `j`); the store starts with the given programs
+and no byte strings.  `<guards>`: per program `<named><utf8>`.  One `<result>` per operation,
+what `Model.run` says the call returned (Props: `session_results_independent` — it is what the
+same call returns alone, whatever else the session does):
+  `b <json>` | `c <nodes>|<table>` | `e <error>` | `x` (operand does not exist). -/
+
+def parseOp (t : String) : Option Op :=
+  match t.toList with
+  | 'm' :: r => (String.ofList r).toNat?.map Op.marshal
+  | 'u' :: r => (String.ofList r).toNat?.map Op.unmarshal
+  | _ => none
+
+def parseOps (s : String) : Option (List Op) := (splitToks s).mapM parseOp
+
+def parseProgs : List String → Option (List Prog)
+  | [] => some []
+  | nodes :: table :: rest => do
+    let p ← parseProg nodes table
+    let ps ← parseProgs rest
+    pure (p :: ps)
+  | _ => none
+
+def showRes : Option Res → String
+  | none => "x"
+  | some (.bytes w) => "b " ++ jState w
+  | some (.code q) => "c " ++ showNodes q.nodes ++ "|" ++ showTable q.table
+  | some (.failed e) => "e " ++ errName e
+
 def handle : List String → String
   | ["rt", nodes, table] =>
     match parseProg nodes table with
@@ -277,6 +311,14 @@ def handle : List String → String
       | .ok q =>
         head ++ "\tok\t" ++ showNodes q.nodes ++ "\t" ++ showTable q.table ++ "\t"
           ++ b01 (execView q == execView p) ++ "\t" ++ b01 (State.beq (marshal q) w) ++ "\t" ++ b01 (specOK p)
+  | "sess" :: ops :: progs =>
+    match parseOps ops, parseProgs progs with
+    | some os, some ps =>
+      let out := run { codes := ps, blobs := [] } os
+      let guards := " ".intercalate (ps.map fun p => b01 (NamedConsistent p) ++ b01 (ValidUtf8Consts p))
+      "ok\t" ++ guards ++ "\t" ++ toString out.1.codes.length ++ " " ++ toString out.1.blobs.length
+        ++ String.join (out.2.map fun r => "\t" ++ showRes r)
+    | _, _ => "error\tbad-request"
   | ["sanitize", s] =>
     match fromHex s with
     | some b => toHexField (sanitize b) ++ "\t" ++ b01 (validStr b)
